@@ -4,8 +4,9 @@ Three legs on every run (DESIGN 3.3):
   (a) text tie      model genStmt(parseStmt nest)  ==  control skeleton of `chibicc -S` on the same nest
                     (labels, jumps, compare ladder with immediates, calls of m/c/in), label numbers included;
   (b) behaviour     chibicc-built object vs gcc-built twin of the same source under one harness (traces of m/c/in/r events);
-                    Spec.exec (Lean, through drv_c03 exec) vs both on the structured fragment; the model's own machine
-                    on the model's code (drv_c03 mrun) vs chibicc on everything the model can express (goto, Duff's device);
+                    Spec.exec (Lean, through drv_c03 exec) vs both on the structured fragment; Spec.execG (the small-step
+                    abstract machine of C03_preserve_goto_partial, drv_c03 execg) vs both on EVERYTHING (goto, goto *&&L,
+                    Duff's device); the model's own machine on the model's code (drv_c03 mrun) vs chibicc on everything;
   (c) scoping       generated shadowing programs; which declaration each use bound to: scope model vs chibicc vs gcc.
 """
 import os, json, hashlib, itertools, shutil
@@ -21,7 +22,8 @@ TRUSTED_BASE = [
     'hand-written models lean/ChibiVerif/Model/Stmt.lean (parse.c stmt label/context bookkeeping, resolve_goto_labels, '
     'codegen.c gen_stmt control skeleton, a 14-instruction machine) and Model/Scope.lean (enter/leave/push/find); tied on every '
     'run by text equality of the control skeleton with `chibicc -S` and by trace equality of compiled programs',
-    'Spec/ControlSpec.lean (my reading of C11 6.8 and GNU case ranges), validated against gcc 12 by running the same programs',
+    'Spec/ControlSpec.lean and Spec/ControlSpecG.lean (my reading of C11 6.8, GNU case ranges and labels as values; the second is '
+    'a continuation machine in the style of CompCert Clight), validated against gcc 12 by running the same programs',
     'the skeleton abstraction: argument set-up and call sequence of m/c/in are one pseudo-instruction (calls are C06), casts of '
     'the switch operand are dropped (C01); expression-level control (&& || ?: , statement expressions) is outside the Lean '
     'model and checked only behaviourally against gcc',
@@ -630,6 +632,23 @@ def model_exec(ctx, trees, streams, fuel=6000):
             res.append({'structured': m.group(1) == 'true' if m else None, 'how': 'unsupported', 'events': None})
     return res
 
+def model_execg(ctx, trees, streams, fuel=60000):
+    """Spec.Ctl.execG (small-step abstract machine for ALL statements: goto, goto *&&L, case labels nested anywhere) through
+    drv_c03 execg.  One dict per function: valid (the constraints validG hold), gotoval, how (normal|return|break|continue|
+    timeout|unsupported), events."""
+    text = ''.join(f"{fuel} {','.join(str(v) for v in vs) or '-'} {sx(t)}\n" for t, vs in zip(trees, streams))
+    res = []
+    for l in ctx.driver('execg', text).splitlines():
+        m = re.match(r'valid=(\w+) gotoval=(\w+) (done (\w+)|timeout) oi=(\d+) : (.*)$', l)
+        if m:
+            res.append({'valid': m.group(1) == 'true', 'gotoval': m.group(2) == 'true', 'how': m.group(4) or 'timeout',
+                        'events': ev_model(m.group(6))})
+            continue
+        m = re.match(r'valid=(\w+) gotoval=(\w+) unsupported', l)
+        res.append({'valid': m.group(1) == 'true' if m else None, 'gotoval': m.group(2) == 'true' if m else None,
+                    'how': 'unsupported' if m else l, 'events': None})
+    return res
+
 def model_mrun(ctx, unit_trees, streams, fuel=40000):
     """the model's code of every function of the unit on the model's machine.  Label numbers do not matter for behaviour,
     so every function is run as a unit of its own."""
@@ -768,7 +787,11 @@ def nest_batch(ctx, corr, tag, nf, mode, maxdepth, fixed=None):
             break
     # (b) behaviour
     ex = model_exec(ctx, trees, streams)
+    eg = model_execg(ctx, trees, streams)
     mr = model_mrun(ctx, trees, streams)
+    if len(eg) != len(trees):
+        corr.disagreements.append({'kind': 'drv_c03 execg answered %d lines for %d functions' % (len(eg), len(trees))})
+        return False
     for i, t in enumerate(trees):
         corr.evaluations += 1
         cc = b.cc_runs.get(i)
@@ -810,6 +833,36 @@ def nest_batch(ctx, corr, tag, nf, mode, maxdepth, fixed=None):
                                            'source': to_c(t, 0, style), 'values': streams[i], 'index': j, 'gcc': x, 'spec': y,
                                            'spec_outcome': e['how']})
                 ok = False
+        # the abstract machine for all statements (goto, goto *&&L, Duff): Spec.execG vs gcc (validates the specification),
+        # hence vs the chibicc build (which agreed with the reference above); vs Spec.exec where both apply
+        g = eg[i]
+        corr.count('specG:' + str(g['how']))
+        if g['gotoval']:
+            corr.count('specG:computed-goto')
+        if not g['valid'] or g['events'] is None:
+            corr.disagreements.append({'kind': 'Spec.execG gives no meaning to a generated valid program (validG=%s, %s)' % (g['valid'], g['how']),
+                                       'sexpr': sx(t), 'source': to_c(t, 0, style)})
+            ok = False
+        else:
+            gfin = g['how'] != 'timeout'
+            if not agree(gc[0], gc[1], g['events'], gfin):
+                j, x, y = first_diff(gc[0], g['events'])
+                corr.disagreements.append({'kind': 'Spec.execG disagrees with gcc (specification error)', 'sexpr': sx(t),
+                                           'source': to_c(t, 0, style), 'values': streams[i], 'index': j, 'gcc': x, 'specG': y,
+                                           'specG_outcome': g['how']})
+                ok = False
+            if not agree(cc[0], cc[1], g['events'], gfin):
+                j, x, y = first_diff(cc[0], g['events'])
+                corr.disagreements.append({'kind': 'Spec.execG disagrees with the chibicc-compiled program', 'sexpr': sx(t),
+                                           'source': to_c(t, 0, style), 'values': streams[i], 'index': j, 'impl': x, 'specG': y,
+                                           'specG_outcome': g['how']})
+                ok = False
+            if e['how'] not in ('unsupported', 'timeout') and (g['how'] != e['how'] or g['events'] != e['events']):
+                corr.disagreements.append({'kind': 'Spec.exec and Spec.execG differ on a structured program (C03_execG_structured)',
+                                           'sexpr': sx(t), 'exec': [e['how'], e['events'][:40]], 'execG': [g['how'], g['events'][:40]]})
+                ok = False
+            if not e['structured'] and len(g['events']) >= 4:
+                corr.nontrivial.add('runG:' + hashlib.sha1((sx(t) + str(streams[i])).encode()).hexdigest())
         mm = mr[i]
         if mm['events'] is None or not agree(cc[0], cc[1], mm['events'], mm['how'] == 'end'):
             j, x, y = first_diff(cc[0], mm['events'] or [])
@@ -1263,7 +1316,8 @@ def correspond(ctx, corr):
     corr.rule = ('(a) generated statement nests (depth <= 6; if/else, for/while/do, switch with ranges and default anywhere, break/continue, '
                  'return; in "free" mode also goto, goto *&&L, labels and case labels nested inside other statements): control skeleton of '
                  '`chibicc -S` == model text, label numbers included.  (b) the same units compiled by chibicc and by gcc and run under one '
-                 'harness with an oracle stream per function: traces equal; Spec.exec (Lean) == gcc on structured nests; model machine on '
+                 'harness with an oracle stream per function: traces equal; Spec.exec (Lean) == gcc on structured nests; Spec.execG (Lean, '
+                 'all statement forms incl. goto / goto *&&L / nested case labels) == gcc == chibicc on every nest; model machine on '
                  'model code == chibicc; directed switch battery (9 controlling types x case sets at the type bounds, > 32 bits, negative, '
                  'ranges x default position x values around every boundary); expression-level control vs gcc; hand-written corpus (Duff, '
                  'computed-goto tables, goto into/out of loops).  (c) shadowing programs in all name spaces vs the scope model and gcc.  '
@@ -1336,12 +1390,16 @@ MANIFEST = {
                   'the innermost enclosing loop/switch; parser context restored), C03_labels (defined labels pairwise distinct, every jump '
                   'target defined), C03_switch_select (compare ladder incl. imm32/register split and the unsigned sub;cmp;jbe range test '
                   'selects exactly the matching case for every 32/64-bit value), C03_preserve_partial (trace of the emitted code on the '
-                  'machine = Spec.exec for structured nests).  Tied on every run by exact skeleton-text comparison with chibicc -S and by '
+                  'machine = Spec.exec for structured nests), C03_preserve_goto_partial (the same for EVERY statement form - goto, computed '
+                  'goto, case labels nested anywhere (Duff) - against the small-step abstract machine Spec.execG, for every parsed function '
+                  'that satisfies the language constraints), C03_execG_structured (the two abstract machines agree on structured nests).  Tied on every run by exact skeleton-text comparison with chibicc -S and by '
                   'trace comparison of compiled programs against gcc and the Lean spec; scoping against generated shadowing programs.',
     'level_note': 'C03_switch_select has the explicit hypothesis "lo <= hi in the controlling type" (the property\'s own wording). '
-                  'Preservation is proved for the structured fragment (no goto/computed goto, case labels only as prefixes of top-level '
-                  'items of the switch body); goto, Duff-style case labels, && || ?: , and statement expressions are covered by '
-                  'differential execution against gcc only.  Calls and casts are abstracted in the skeleton (C06/C01).',
+                  'Preservation is proved for all statement forms (goto, computed goto, Duff-style case labels included) under the explicit '
+                  'decidable hypotheses validG (case ranges non-empty and disjoint in the controlling type, at most one default, jump '
+                  'targets defined once: constraint violations have no meaning) and code size < 2^64 when a computed goto occurs; the '
+                  'literal C03_preserve_Statement (exact fuel equality with Spec.exec, no hypotheses) stays open.  && || ?: , and statement '
+                  'expressions are covered by differential execution against gcc only.  Calls and casts are abstracted in the skeleton (C06/C01).',
     'technique': 'Lean 4: refinement + backward-history specification (scopes), structural induction with the parser state as invariant '
                  '(binding, labels), bit-vector reasoning (switch ladder), forward simulation with code-at-pc invariants (preservation); '
                  'text and trace correspondence with the real compiler',
